@@ -30,11 +30,84 @@ def offending_texts(rng):
             "TTTTTTTTTTTTTTTT", str(rng.randrange(2, 10**6))]
 
 
-def parse_cases(ctx, out):
+def eval_parse(ann, col, text, mode, line):
+    """One line with a non-null germline field parsed in one mode on the implementation + the property's oracle.
+    -> {"failures": [...], "counted": the case reached the end of the oracle, "account": what the implementation returned}"""
     from maflib.record import MafRecord
+    sch = impl.scheme_by_annotation(ann)
+    names = sch.column_names()
+    k = names.index(col)
+    e = {"failures": [], "counted": True}
+    fails = e["failures"]
+    try:
+        rec = MafRecord.from_line(line, scheme=sch, line_number=5, validation_stringency=impl.MODES[mode])
+    except Exception as x:  # noqa
+        rec, exc = None, x
+    where = {"scheme": ann, "column": col, "text": text, "mode": mode, "line": line}
+    if mode == "Strict":
+        e["account"] = "returned a record" if rec is not None else "raised %s" % exc_name(exc)
+        if rec is not None or not exc_name(exc).startswith("MafFormatException"):
+            fails.append(dict(where, what="Strict parsing accepted a non-null germline field",
+                              kind="strict-accepts"))
+    else:
+        if rec is None:
+            e["account"] = "raised %s" % exc_name(exc)
+            fails.append(dict(where, what="non-strict parsing raised", kind="exception", got=exc_name(exc)))
+            e["counted"] = False
+            return e
+        exposed = []
+        try:
+            if rec.value(col) is not None:
+                exposed.append("value()")
+        except Exception:  # noqa
+            pass
+        slots = rec._MafRecord__columns_list
+        if k < len(slots) and slots[k] is not None:
+            exposed.append("record[%d]" % k)
+        s = str(rec).split("\t")
+        if k < len(s) and s[k] == text and text != "None":  # an empty slot prints as "None"
+            exposed.append("str(record)")
+        if exposed:
+            fails.append(dict(where, what="parsed record exposes the offending germline value via %s" % exposed,
+                              kind="exposed"))
+        if not rec.validation_errors:
+            fails.append(dict(where, what="non-null germline field produced no validation error", kind="no-error"))
+        e["account"] = "record with %d validation error(s); field %d (%s) exposed via %s; printed as %r" % (
+            len(rec.validation_errors), k, col, exposed or "nothing", s[k] if k < len(s) else None)
+    return e
+
+
+def eval_vcf(ann):
+    """protected-only VCF columns are absent from a public layout"""
+    names = impl.scheme_by_annotation(ann).column_names()
+    present = [c for c in VCF_ONLY if c in names]
+    if present:
+        return [{"what": "protected-only VCF columns present in a public layout", "kind": "vcf",
+                 "scheme": ann, "columns": present}]
+    return []
+
+
+def compare_model(ctx, reqs):
+    """rec.from_line requests on the model and the implementation -> (dontcare, disagreements, [(request, model, impl)])."""
+    mo = ctx.driver.run(reqs)
+    dontcare, dis, triples = 0, [], []
+    for r, m in zip(reqs, mo):
+        i = impl.run(r)
+        triples.append((r, m, i))
+        if not has_unmodelled(m) and m != i:
+            fields = r["line"].split("\t")
+            if any(colcases.dontcare_numeric(p) or colcases.dontcare_uuid(p) for f in fields for p in [f] + f.split(";")):
+                dontcare += 1
+            else:
+                dis.append({"op": "rec.from_line", "request": {k: r[k] for k in ("scheme", "mode", "line")},
+                            "model": m.get("exc") or m["rec"]["errors"], "impl": i.get("exc") or i["rec"]["errors"]})
+    return dontcare, dis, triples
+
+
+def parse_cases(ctx, out):
     rng = ctx.rng("parse")
     layouts = masked_layouts()
-    reqs, metas = [], []
+    reqs = []
     for ann, cols in sorted(layouts.items()):
         sch = impl.scheme_by_annotation(ann)
         names = sch.column_names()
@@ -48,80 +121,49 @@ def parse_cases(ctx, out):
                 line = "\t".join(fields)
                 for mode in MODES:
                     out.evaluations += 1
-                    r = colcases.from_line_req(ann, line, mode, 5)
-                    reqs.append(r)
-                    metas.append((ann, col, k, text, mode))
-                    try:
-                        rec = MafRecord.from_line(line, scheme=sch, line_number=5, validation_stringency=impl.MODES[mode])
-                    except Exception as e:  # noqa
-                        rec, exc = None, e
-                    where = {"scheme": ann, "column": col, "text": text, "mode": mode, "line": line}
-                    if mode == "Strict":
-                        if rec is not None or not exc_name(exc).startswith("MafFormatException"):
-                            out.failures.append(dict(where, what="Strict parsing accepted a non-null germline field",
-                                                     kind="strict-accepts"))
-                        out.distribution["strict:refused"] += 1
-                    else:
-                        if rec is None:
-                            out.failures.append(dict(where, what="non-strict parsing raised", kind="exception", got=exc_name(exc)))
-                            continue
-                        exposed = []
-                        try:
-                            if rec.value(col) is not None:
-                                exposed.append("value()")
-                        except Exception:  # noqa
-                            pass
-                        slots = rec._MafRecord__columns_list
-                        if k < len(slots) and slots[k] is not None:
-                            exposed.append("record[%d]" % k)
-                        s = str(rec).split("\t")
-                        if k < len(s) and s[k] == text and text != "None":  # an empty slot prints as "None"
-                            exposed.append("str(record)")
-                        if exposed:
-                            out.failures.append(dict(where, what="parsed record exposes the offending germline value via %s" % exposed,
-                                                     kind="exposed"))
-                        if not rec.validation_errors:
-                            out.failures.append(dict(where, what="non-null germline field produced no validation error", kind="no-error"))
-                        out.distribution["nonstrict:hidden"] += 1
+                    reqs.append(colcases.from_line_req(ann, line, mode, 5))
+                    e = eval_parse(ann, col, text, mode, line)
+                    out.failures += e["failures"]
+                    if not e["counted"]:
+                        continue
+                    out.distribution["strict:refused" if mode == "Strict" else "nonstrict:hidden"] += 1
                     out.nontrivial.add((ann, col, text))
                 if len(out.samples) < 3:
                     out.sample({"scheme": ann, "column": col, "text": text, "modes": MODES})
         # protected-only VCF columns are absent from public layouts
         if ann.endswith("-public"):
             out.evaluations += 1
-            present = [c for c in VCF_ONLY if c in names]
-            if present:
-                out.failures.append({"what": "protected-only VCF columns present in a public layout", "kind": "vcf",
-                                     "scheme": ann, "columns": present})
-    mo = ctx.driver.run(reqs)
-    for r, m, meta in zip(reqs, mo, metas):
-        i = impl.run(r)
-        if not has_unmodelled(m) and m != i:
-            fields = r["line"].split("\t")
-            if any(colcases.dontcare_numeric(p) or colcases.dontcare_uuid(p) for f in fields for p in [f] + f.split(";")):
-                out.dontcare += 1
-            else:
-                out.disagreements.append({"op": "rec.from_line", "request": {k: r[k] for k in ("scheme", "mode", "line")},
-                                          "model": m.get("exc") or m["rec"]["errors"], "impl": i.get("exc") or i["rec"]["errors"]})
+            out.failures += eval_vcf(ann)
+    dontcare, dis, _t = compare_model(ctx, reqs)
+    out.dontcare += dontcare
+    out.disagreements += dis
 
 
-def api_records(ann, col, value_text, rng):
-    """Records carrying a non-null germline value, built in the ways the API allows."""
+PROTECTED_OF = {"gdc-1.0.0-public": "gdc-1.0.0-protected", "gdc-1.0.1-public": "gdc-1.0.1-protected",
+                "gdc-1.0.0-aliquot-merged-masked": "gdc-1.0.0-aliquot-merged",
+                "gdc-2.0.0-aliquot-merged-masked": "gdc-2.0.0-aliquot-merged"}
+
+
+def masked_clean_fields(ann, fields):
+    """The fields of a conforming line with every masked column set to its null spelling."""
+    names = impl.scheme_by_annotation(ann).column_names()
+    for c2 in masked_layouts()[ann]:
+        fields[names.index(c2)] = ""
+    return fields
+
+
+def api_records(ann, col, value_text, clean_line):
+    """Records carrying a non-null germline value, built in the ways the API allows, from the clean line."""
     from maflib.record import MafRecord
     from maflib.validation import ValidationStringency as VS
     sch = impl.scheme_by_annotation(ann)
     names = sch.column_names()
-    base_ann = {"gdc-1.0.0-public": "gdc-1.0.0-protected", "gdc-1.0.1-public": "gdc-1.0.1-protected",
-                "gdc-1.0.0-aliquot-merged-masked": "gdc-1.0.0-aliquot-merged",
-                "gdc-2.0.0-aliquot-merged-masked": "gdc-2.0.0-aliquot-merged"}.get(ann)
-    fields = colcases.valid_fields(ann, rng)
-    for c2 in masked_layouts()[ann]:
-        fields[names.index(c2)] = ""
-    clean = MafRecord.from_line("\t".join(fields), scheme=sch, validation_stringency=VS.Silent)
+    base_ann = PROTECTED_OF.get(ann)
+    clean = MafRecord.from_line(clean_line, scheme=sch, validation_stringency=VS.Silent)
     k = names.index(col)
     out = []
     # (a) post-hoc mutation of the masked column of a cleanly parsed record
-    r = MafRecord.from_line("\t".join(fields), scheme=sch, validation_stringency=VS.Silent)
+    r = MafRecord.from_line(clean_line, scheme=sch, validation_stringency=VS.Silent)
     if r[col] is not None:
         base_cls = [c for c in type(r[col]).__mro__ if c.__name__ == type(r[col]).__name__][-1]
         try:
@@ -135,64 +177,78 @@ def api_records(ann, col, value_text, rng):
         bsch = impl.scheme_by_annotation(base_ann)
         try:
             bc = bsch.column_class(col).build(name=col, value=value_text, column_index=k)
-            r = MafRecord.from_line("\t".join(fields), scheme=sch, validation_stringency=VS.Silent)
+            r = MafRecord.from_line(clean_line, scheme=sch, validation_stringency=VS.Silent)
             r[col] = bc
             out.append(("protected-class-column", r))
         except Exception:  # noqa
             pass
     # (c) a generic untyped column
     from maflib.column import MafColumnRecord
-    r = MafRecord.from_line("\t".join(fields), scheme=sch, validation_stringency=VS.Silent)
+    r = MafRecord.from_line(clean_line, scheme=sch, validation_stringency=VS.Silent)
     r[col] = MafColumnRecord(col, value_text, column_index=k)
     out.append(("generic-column", r))
     return clean, out
 
 
-def writer_cases(ctx, out):
+def eval_writer(ann, col, text, clean_line):
+    """The Strict writer (direct, then sorting) offered the clean record followed by each API-built record carrying
+    `text` in the masked column `col` (the record objects are shared by the variants, as a caller would reuse them).
+    -> [{"how", "sorting", "failures", "account"}, ...] in execution order"""
     from maflib.header import MafHeader
     from maflib.writer import MafWriter
     from maflib.validation import ValidationStringency as VS
+    from maflib.sort_order import Coordinate
+    sch = impl.scheme_by_annotation(ann)
+    names = sch.column_names()
+    clean, offered = api_records(ann, col, text, clean_line)
+    results = []
+    for how, rec in offered:
+        for sort in (False, True):
+            h = MafHeader.from_defaults(version=sch.version(), annotation=ann,
+                                        sort_order=Coordinate() if sort else None)
+            buf = io.StringIO()
+            buf.close = lambda: None
+            w = MafWriter.from_fd(buf, h, validation_stringency=VS.Strict, assume_sorted=not sort)
+            refused = False
+            kind = None
+            try:
+                w += clean
+                w += rec
+            except Exception as e:  # noqa
+                refused = exc_name(e).startswith("MafFormatException")
+                kind = exc_name(e)
+            try:
+                w.close()
+            except Exception:  # noqa
+                pass
+            body = [ln for ln in buf.getvalue().split("\n") if ln and not ln.startswith("#")][1:]
+            leaked = [ln for ln in body if ln and len(ln.split("\t")) > names.index(col)
+                      and ln.split("\t")[names.index(col)] not in ("",)]
+            where = {"scheme": ann, "column": col, "text": text, "how": how, "sorting": sort, "clean_line": clean_line}
+            fails = []
+            if leaked:
+                fails.append(dict(where, what="Strict writer emitted a non-null germline field", kind="leak",
+                                  got=leaked[0].split("\t")[names.index(col)]))
+            elif not refused:
+                fails.append(dict(where, what="Strict writer did not refuse the record with the format exception",
+                                  kind="not-refused"))
+            results.append({"how": how, "sorting": sort, "failures": fails,
+                            "account": "%s; %d data line(s) written, %d with a non-null %s" % (
+                                ("raised %s" % kind) if kind else "accepted both records", len(body), len(leaked), col)})
+    return results
+
+
+def writer_cases(ctx, out):
     rng = ctx.rng("writer")
     for ann, cols in sorted(masked_layouts().items()):
-        sch = impl.scheme_by_annotation(ann)
-        names = sch.column_names()
         for col in cols:
             for text in ["ACGT", "17", "-", "A"]:
-                clean, offered = api_records(ann, col, text, rng)
-                for how, rec in offered:
-                    for sort in (False, True):
-                        out.evaluations += 1
-                        from maflib.sort_order import Coordinate
-                        h = MafHeader.from_defaults(version=sch.version(), annotation=ann,
-                                                    sort_order=Coordinate() if sort else None)
-                        buf = io.StringIO()
-                        buf.close = lambda: None
-                        w = MafWriter.from_fd(buf, h, validation_stringency=VS.Strict, assume_sorted=not sort)
-                        before = buf.getvalue()
-                        refused = False
-                        try:
-                            w += clean
-                            mid = buf.getvalue()
-                            w += rec
-                        except Exception as e:  # noqa
-                            refused = exc_name(e).startswith("MafFormatException")
-                            kind = exc_name(e)
-                        try:
-                            w.close()
-                        except Exception:  # noqa
-                            pass
-                        body = [ln for ln in buf.getvalue().split("\n") if ln and not ln.startswith("#")][1:]
-                        leaked = [ln for ln in body if ln and len(ln.split("\t")) > names.index(col)
-                                  and ln.split("\t")[names.index(col)] not in ("",)]
-                        where = {"scheme": ann, "column": col, "text": text, "how": how, "sorting": sort}
-                        if leaked:
-                            out.failures.append(dict(where, what="Strict writer emitted a non-null germline field", kind="leak",
-                                                     got=leaked[0].split("\t")[names.index(col)]))
-                        elif not refused:
-                            out.failures.append(dict(where, what="Strict writer did not refuse the record with the format exception",
-                                                     kind="not-refused"))
-                        out.distribution["writer:" + how] += 1
-                        out.nontrivial.add((ann, col, text, how, sort))
+                clean_line = "\t".join(masked_clean_fields(ann, colcases.valid_fields(ann, rng)))
+                for r in eval_writer(ann, col, text, clean_line):
+                    out.evaluations += 1
+                    out.failures += r["failures"]
+                    out.distribution["writer:" + r["how"]] += 1
+                    out.nontrivial.add((ann, col, text, r["how"], r["sorting"]))
 
 
 def run(ctx):
@@ -206,4 +262,61 @@ def run(ctx):
 
 def search(ctx):
     return run(ctx)
+
+
+# ------------------------------------------------------------------ replay
+def _short(x, n=300):
+    import json
+    t = x if isinstance(x, str) else json.dumps(x, default=str, ensure_ascii=True)
+    return t if len(t) <= n else t[:n] + "... (%d chars)" % len(t)
+
+
+def replay_case(ctx, failure):
+    """Re-evaluate the stored input on the current implementation; the failures it produces now
+    ([] = nothing germline gets through on it; None = the stored failure lacks the inputs: regenerate from the seed)."""
+    f = failure
+    if f.get("kind") == "vcf":
+        ann = f.get("scheme")
+        if not ann or impl.scheme_by_annotation(ann) is None:
+            return None
+        fails = eval_vcf(ann)
+        print("replay C05 layout: column names of %s; protected-only VCF columns present: %s"
+              % (ann, fails[0]["columns"] if fails else "none"))
+        return fails
+    if not all(k in f for k in ("scheme", "column", "text")):
+        return None
+    ann, col, text = f["scheme"], f["column"], f["text"]
+    sch = impl.scheme_by_annotation(ann)
+    if sch is None or col not in sch.column_names() or ann not in masked_layouts():
+        return None
+    if "how" in f:
+        if "clean_line" not in f or "sorting" not in f:
+            return None
+        results = eval_writer(ann, col, text, f["clean_line"])
+        print("replay C05 writer: Strict MafWriter for %s offered the conforming record (all germline columns null) and then records "
+              "carrying %r in %s; the run's sequence for this line (3 ways of building the record x direct/sorting) is repeated, "
+              "the stored variant is %s, %s (implementation only)" % (ann, text, col, f["how"], "sorting" if f["sorting"] else "direct"))
+        print("  conforming line: %s" % _short(f["clean_line"]))
+        fails = []
+        for r in results:
+            mine = r["how"] == f["how"] and r["sorting"] == f["sorting"]
+            print("  %s %-22s %-7s: %s" % ("*" if mine else " ", r["how"], "sorting" if r["sorting"] else "direct", r["account"]))
+            if mine:
+                fails += r["failures"]
+        print("  oracle on the stored variant: %d failure(s)%s" % (len(fails), "".join("\n    - " + x["what"] for x in fails)))
+        return fails
+    if "mode" in f and "line" in f:
+        e = eval_parse(ann, col, text, f["mode"], f["line"])
+        print("replay C05 parse: MafRecord.from_line(<%d fields>, scheme=%s, line_number=5, %s) with %r in the masked column %s"
+              % (len(f["line"].split("\t")), ann, f["mode"], text, col))
+        print("  line: %s" % _short(f["line"]))
+        print("  implementation: %s" % e["account"])
+        _d, _dis, triples = compare_model(ctx, [colcases.from_line_req(ann, f["line"], f["mode"], 5)])
+        for r, m, i in triples:
+            k = sch.column_names().index(col)
+            ms = m.get("exc") or {"errors": len(m["rec"]["errors"]), "slot": m["rec"]["slots"][k] if k < len(m["rec"]["slots"]) else None}
+            print("  model: %s (%s)" % (_short(ms), "outside the model" if has_unmodelled(m) else "agrees" if m == i else "differs"))
+        print("  oracle: %d failure(s)%s" % (len(e["failures"]), "".join("\n    - " + x["what"] for x in e["failures"])))
+        return e["failures"]
+    return None
 
